@@ -236,50 +236,44 @@ class Patches:
         self.saved = []
 
 
-async def _connected():
-    return True
-
-
-async def _refused():
-    return False
-
-
 class World:
-    """A real FacadeAppleTV taken through pyatv.connect's own set-up loop for a configuration
-    and then `connect()`ed without network: SetupData.connect answers True, or False at the
-    queue positions listed in the scenario.  `S` = the protocols the device is connected with."""
+    """A real device object obtained from the real `pyatv.connect()` for a configuration
+    (tools/gen/c01.build_world: no network, SetupData.connect answers True, or False at the
+    queue positions listed in the scenario).  `S` = the protocols the device is connected with."""
 
     def __init__(self, patches, sc):
         from pyatv.const import Protocol
-        from tools.gen.c01 import build_world
+        from tools.gen.c01 import build_world, reachable_cores
 
         self.p = patches
         self.sc = sc
         self.video = sc["video"]
         spec = {k: v for k, v in sc.items() if k != "fail"}
-        self.built = build_world(patches.loop, spec)
+        self.built = build_world(patches.loop, spec, fail=tuple(sc["fail"]))
         patches.ensure(self.built)
         self.atv = self.built.atv
         self.Protocol = Protocol
         patches.owner.clear()
         self.connected = {}      # protocol name -> SetupData that connected (first one wins)
+        self.asking_core = {}    # protocol name -> the Core its registered instances take over through
         self.fail = [k for k in sc["fail"] if k < len(self.built.queue)]
-        for k, (_origin, sd) in enumerate(self.built.queue):
+        for k, (origin, sd) in enumerate(self.built.queue):
             ok = k not in self.fail
             name = sd.protocol.name
             mine = ok and name not in self.connected
             if mine:
                 self.connected[name] = sd
+                held = reachable_cores(sd)
+                # no Core held by its instances: the one pyatv.connect created for this very protocol;
+                # a protocol set up by another one (tunnelled MRP) whose code holds no Core cannot ask at all
+                self.asking_core[name] = held[0] if held else (self.built.cores[origin] if origin == sd.protocol else None)
             for inst in sd.interfaces.values():
                 patches.owner[id(inst)] = name if mine else f"not-connected:{name}#{k}"
-            self.atv.add_protocol(sd._replace(connect=_connected if ok else _refused, close=lambda: set()))
         self.S = [p for p in TEXT_ORDER if p in self.connected]
-        self.connect_error = None
-        try:
-            patches.loop.run_until_complete(self.atv.connect())
-        except Exception as e:   # e.g. nothing to connect to
-            self.connect_error = type(e).__name__
-        self.relayers = {b.__name__: self.atv._interfaces[b] for b in patches.iface_classes}
+        self.connect_error = type(self.built.error).__name__ if self.built.error is not None else None
+        self.relayers = {}
+        if self.atv is not None:
+            self.relayers = {b.__name__: self.atv._interfaces[b] for b in patches.iface_classes}
         self.env = None
 
     def genuine(self, proto, iface, name):
@@ -297,11 +291,11 @@ class World:
         """Protocol `proto` reports volume, output devices, keyboard focus and play state on the
         internal state dispatcher; later calls reuse exactly these values as arguments."""
         from pyatv import const, interface
-        from pyatv.core import ProtocolStateDispatcher, UpdatedState
+        from pyatv.core import UpdatedState
 
         env = {"volume": 20.0 + (7 * k) % 70, "device": "dev-%d" % k, "position": 3 + k,
                "shuffle": const.ShuffleState.Songs, "repeat": const.RepeatState.All, "publisher": proto}
-        disp = ProtocolStateDispatcher(self.Protocol[proto], self.built.dispatcher)
+        disp = self.built.dispatcher_for(self.Protocol[proto])
 
         async def go():
             disp.dispatch(UpdatedState.Volume, env["volume"])
@@ -397,11 +391,17 @@ class World:
         return out
 
     def takeover(self, proto, ifaces):
-        """ifaces: interface names or '?' (an object that is no interface)"""
+        """Protocol `proto` takes over `ifaces` (interface names or '?' = an object that is no
+        interface) the way its own code does: through the `takeover` method of the Core that
+        pyatv.connect() wired for it and that its registered instances hold.  A protocol the
+        device is not connected with has no such Core: FacadeAppleTV.takeover is called in its name."""
         from pyatv import exceptions
 
         objs = [self.p.bases[i] if i != "?" else object() for i in ifaces]
+        core = self.asking_core.get(proto)
         try:
+            if core is not None:
+                return "ok", core.takeover(*objs)
             return "ok", self.atv.takeover(self.Protocol[proto], *objs)
         except exceptions.InvalidStateError:
             return "invalid", None
